@@ -102,7 +102,7 @@ func genGraphSpec(r *Rand) GraphSpec {
 		s.Churn = r.Range(40, 600)
 	}
 	if s.Kind == "grammar" {
-		s.G = genGrammar(r, &genOpts{MaxNodes: 12, Alphabet: "ab", Trims: true, MemoChance: 35, Names: true, Rich: r.Chance(1, 3), User: true})
+		s.G = genGrammar(r, &genOpts{MaxNodes: 12, Alphabet: "ab", Trims: true, MemoChance: 35, Names: true, Rich: r.Chance(1, 3), User: true, Prebuilt: true})
 		s.Interp = r.Bool()
 		n := len(s.G.Nodes)
 		s.Order = make([]int, n)
